@@ -273,8 +273,8 @@ type C15Solver struct {
 }
 
 func GenC15Solver() *rapid.Generator[C15Solver] {
-	cyc := genNet(NetCfg{Cyclic: true})
-	dag := genNet(NetCfg{})
+	cyc := genNet(NetCfg{Cyclic: true, Rename: true})
+	dag := genNet(NetCfg{Rename: true})
 	mod := genGenomeSpec(GenomeCfg{Modules: true, MinGenes: 1, SingleOutMod: true, ModestWeight: true})
 	return rapid.Custom(func(t *rapid.T) C15Solver {
 		var c C15Solver
